@@ -23,6 +23,12 @@ const progSrc = `package main
 
 type d32 uint32
 
+// defined rune and byte types: their slices convert to and from strings like []rune and []byte
+type Code rune
+type Codes []Code
+type Octet byte
+type Octets []Octet
+
 func (d *d32) u(x uint32) { *d = d32((uint32(*d) ^ x) * 16777619) }
 func (d *d32) s(s string) {
 	for i := 0; i < len(s); i++ {
@@ -93,6 +99,19 @@ func probe(d *d32, prev, s string, m map[string]int) {
 	back := string(rs)
 	d.s(back)
 	note("string(runes)", q(back))
+	// slices of defined rune and byte types convert like []rune and []byte
+	cs := []Code(s)
+	d.u(uint32(len(cs)))
+	for i := range cs {
+		cs[i] ^= 0
+	}
+	d.s(string(cs))
+	d.s(string(Codes(cs)))
+	note("string([]Code)", q(string(cs)))
+	os := Octets(s)
+	d.u(uint32(len(os)))
+	d.s(string(os))
+	d.s(string([]Octet(os)))
 	bs := []byte(s)
 	d.u(uint32(len(bs)))
 	if string(bs) != s {
